@@ -13,7 +13,7 @@ mkdir -p $R/tun/client/ui/build && [ -e /repo/tun/client/ui/build ] && cp -r /re
 git -C $R apply "$PATCH" || { echo "patch does not apply"; exit 2; }
 for P in "$@"; do
   echo "=== $P with $NAME"
-  (cd $V && VERIF_REPO=$R VERIF_SEED=${VERIF_SEED:-1} VERIF_WORKERS=${VERIF_WORKERS:-8} python3 check.py $P --tier ${TIER:-quick} 2>&1 | tail -${TAIL:-6})
+  (cd $V && VERIF_REPO=$R VERIF_SEED=${VERIF_SEED:-1} VERIF_WORKERS=${VERIF_WORKERS:-8} python3 check.py $P --tier ${TIER:-quick} ${EXTRA:-} 2>&1 | tail -${TAIL:-6})
   echo "exit=$?"
 done
 [ -n "${KEEP:-}" ] || { git -C /repo worktree remove --force $R; git -C /verif worktree remove --force $V; }
